@@ -958,6 +958,14 @@ class Unit:
             st = ln.strip()
             if not st.startswith("//@"):
                 org = {"kind": "tpl", "tpl": f"{rel}:{i + 1}"}
+                if depth == 0 and st == "verus! {" and not getattr(self, "_vac_decl", False):
+                    # used only by the vacuity run: every `assert(false)` probe sits under its own arbitrary condition, so that a
+                    # probe that fails (as it must) does not make the code after it unreachable for the next probe
+                    self._vac_decl = True
+                    self.emit(ln + "\n", org)
+                    self.emit("pub uninterp spec fn vac_choice(i: int) -> bool;\n", org)
+                    i += 1
+                    continue
                 m = re.search(r"\bproof fn\s+(\w+)", ln)
                 if m and "broadcast use" not in ln:
                     tags = []
